@@ -199,10 +199,10 @@ func c02One(ws *pipe.Workspace, fam string, idx int64, s *lexref.Spec, L int, st
 // first rule followed by '!' so that it does not simply shadow the others):
 // every way ranges can nest, overlap, coincide with the remainder of a split
 // and be split again.
-func rangeAlgebraSpec(i int64, nr int) *lexref.Spec {
+func rangeAlgebraSpec(i int64, nr int, top rune) *lexref.Spec {
 	var rgs [][2]int
-	for lo := 'a'; lo <= 'f'; lo++ {
-		for hi := lo; hi <= 'f'; hi++ {
+	for lo := 'a'; lo <= top; lo++ {
+		for hi := lo; hi <= top; hi++ {
 			rgs = append(rgs, [2]int{int(lo), int(hi)})
 		}
 	}
@@ -220,30 +220,43 @@ func rangeAlgebraSpec(i int64, nr int) *lexref.Spec {
 	return s
 }
 
-func rangeAlgebraSize(nr int) int64 {
+func rangeAlgebraSize(nr int, top rune) int64 {
+	k := int64(top-'a') + 1
 	n := int64(1)
 	for r := 0; r < nr; r++ {
-		n *= 21
+		n *= k * (k + 1) / 2
 	}
 	return n
+}
+
+// rangeAlgebraFamilies: (rules, last point). Quick: 3 ranges over a..f and 4
+// over a..e; thorough: 4 over a..f and 5 over a..d.
+func rangeAlgebraFamilies(quick bool) [][2]int {
+	if quick {
+		return [][2]int{{3, 'f'}, {4, 'e'}}
+	}
+	return [][2]int{{4, 'f'}, {5, 'd'}}
+}
+
+func rangeAlgebraRun(c *mc.Ctx, ws *pipe.Workspace, property string, inDomain func(c *lexref.Compiled) (bool, string)) {
+	for _, f := range rangeAlgebraFamilies(c.Quick()) {
+		nr, top := f[0], rune(f[1])
+		for i := int64(0); i < rangeAlgebraSize(nr, top); i++ {
+			if !c.Mine(i) {
+				continue
+			}
+			for _, v := range c02One(ws, fmt.Sprintf("range-algebra-%d-%c", nr, top), i, rangeAlgebraSpec(i, nr, top), 1, &c.Stats, property, inDomain) {
+				c.Stats.Violate(v)
+			}
+		}
+	}
 }
 
 func c02Worker(c *mc.Ctx) {
 	prm := c02Families(c.Quick())
 	ws := pipe.NewWorkspace("c02")
 	defer ws.Close()
-	nr := 3
-	if !c.Quick() {
-		nr = 4
-	}
-	for i := int64(0); i < rangeAlgebraSize(nr); i++ {
-		if !c.Mine(i) {
-			continue
-		}
-		for _, v := range c02One(ws, fmt.Sprintf("range-algebra-%d", nr), i, rangeAlgebraSpec(i, nr), 1, &c.Stats, "C02", specInDomainC02) {
-			c.Stats.Violate(v)
-		}
-	}
+	rangeAlgebraRun(c, ws, "C02", specInDomainC02)
 	for _, fam := range prm.sets {
 		n := fam.rs.Size()
 		if fam.limit > 0 && fam.limit < n {
@@ -289,6 +302,7 @@ func init() {
 		ID:    "C02",
 		Level: "model_checking",
 		Rule: "rule sets: every specification of 1-3 rules (token or @frag @discard) whose expressions are drawn from the pool of all regexes up to a size bound over the leaves {'a','b','ab',[a],[ab],[a-c],~[a],[a-c]-[b],.} with ? * + | concatenation and grouping (counter-enumerated); kept if greedy, no empty class, no rule matching the empty string; " +
+			"plus the range-algebra family: every specification of 3 rules that are each one range over the points a..f and of 4 rules over a..e (thorough: 4 over a..f, 5 over a..d), i.e. every way ranges nest, overlap, coincide with the remainder of a split and are split again, in every order; " +
 			"each: breadth-first search of the product (real _LexerStateMachine with the spec's emitted tables) x (tuple of Brzozowski derivatives) over both end points and a middle point of every atom of the spec's classes plus EOF - a finite graph, so event streams agree for inputs of every length up to the first error; " +
 			"then every string of up to L symbols (ASCII, 2/3/4-byte code points, invalid UTF-8 bytes) through the real simplelexer driver, comparing token type, text span and position; states/transitions = product nodes/edges; non-trivial = spec with > 3 product states",
 		Assume: []string{"reference: internal/lexref (derivatives over atoms, longest viable run, earliest declared rule)", "the product abstracts byte offsets; the driver-level strings cover them up to the length bound"},
